@@ -204,11 +204,11 @@ def build_for(case):
         # (a clock that starts below zero and crosses it; whole and half units stay exact)
         arena.start = [-10, -1.5, -4][case['index'] % 3] if case['index'] % 7 == 3 else 0
         if scenario['throughput'] == 'inf':
-            pipe = UnboundedPipe()
+            pipe = inject.made(case, UnboundedPipe)
         elif scenario['throughput'] == 'pipe-inf':
-            pipe = Pipe(throughput=float('inf'))    # a regular pipe that never congests
+            pipe = inject.made(case, lambda: Pipe(throughput=float('inf')))    # a regular pipe that never congests
         else:
-            pipe = Pipe(throughput=scenario['throughput'])
+            pipe = inject.made(case, lambda: Pipe(throughput=scenario['throughput']))
         if case['index'] % 5 < 2:
             earlier_simulation(pipe)
         checker = PipeChecker(arena, pipe, scenario)
